@@ -7,7 +7,7 @@ passes with it; then run the property's check (quick, optionally thorough) from 
 /verif with NXS_REPO pointing at the patched worktree, and record what the check reported.
 Scratch directories are removed afterwards.
 
-usage: seeded_eval.py [--no-tests] [--thorough] [--jobs N] <name>...      (names under /verif/seeded)
+usage: seeded_eval.py [--no-tests] [--thorough] [--jobs N] [--as=Cyy] <name>...      (names under /verif/seeded)
 """
 import json
 import os
@@ -28,12 +28,12 @@ def sh(cmd, cwd=None, env=None, timeout=3600):
     return p.returncode, p.stdout + p.stderr
 
 
-def evaluate(name, run_tests=True, thorough=False):
+def evaluate(name, run_tests=True, thorough=False, as_prop=None):
     d = os.path.join(SEEDED, name)
     meta = json.load(open(os.path.join(d, "meta.json")))
-    pid = meta["property"]
-    wt = f"/tmp/seed_wt_{name}"
-    vc = f"/tmp/seed_verif_{name}"
+    pid = as_prop or meta["property"]
+    wt = f"/tmp/seed_wt_{name}_{pid}"
+    vc = f"/tmp/seed_verif_{name}_{pid}"
     res = {"name": name, "property": pid}
     sh(["git", "-C", "/repo", "worktree", "remove", "--force", wt])
     shutil.rmtree(wt, ignore_errors=True)
@@ -95,14 +95,21 @@ def main(argv):
     jobs = 4
     if "--jobs" in argv:
         jobs = int(argv[argv.index("--jobs") + 1])
+    as_prop = None
+    for a in argv:
+        if a.startswith("--as="):      # run another property's check against the change (recorded under evaluation_cross)
+            as_prop = a.split("=", 1)[1]
     names = [a for a in argv if not a.startswith("--") and not a.isdigit()]
     if not names:
         names = sorted(os.listdir(SEEDED))
     with ThreadPoolExecutor(max_workers=jobs) as ex:
-        for res in ex.map(lambda n: evaluate(n, run_tests, thorough), names):
+        for res in ex.map(lambda n: evaluate(n, run_tests, thorough, as_prop), names):
             p = os.path.join(SEEDED, res["name"], "meta.json")
             meta = json.load(open(p))
-            meta["evaluation"] = res
+            if as_prop:
+                meta.setdefault("evaluation_cross", {})[as_prop] = res
+            else:
+                meta["evaluation"] = res
             with open(p, "w") as f:
                 json.dump(meta, f, indent=1)
                 f.write("\n")
